@@ -87,6 +87,23 @@ UNIT = Unit(
         Fn(file=N, name="add", container="ResolveLocalEnv", rewrites=[("name.clone()", "ident_clone(name)")],
            contract="ensures final(self).0@ == old(self).0@.push((*name, new_name)),",
            obligation="a new binding goes to the END of the environment (rfind searches from the back: innermost first)"),
+        Fn(file=N, name="rfind", container="ResolveLocalEnv", ret="r", rules=["attrs", "iter_rfind_map", "iter_find_map"],
+           rewrites=[(re.compile(r"if name == key \{"), "if ident_eq(name, key) {", "*")],
+           contract="""ensures r is None ==> forall|j: int| 0 <= j < self.0@.len() ==> (#[trigger] self.0@[j]).0.0@ != key.0@,
+            r matches Some(id) ==> exists|k: int| 0 <= k < self.0@.len() && (#[trigger] self.0@[k]).0.0@ == key.0@ && self.0@[k].1 == id
+                && forall|j: int| k < j < self.0@.len() ==> (#[trigger] self.0@[j]).0.0@ != key.0@,""",
+           obligation="lookup finds the LAST (innermost, most recent) binding of the name, or none if there is none",
+           loop_fn=lambda k, header, kw: (
+               "invariant_except_break __ff0 is None, forall|j: int| 0 <= j < __fk0 ==> (#[trigger] self.0@[j]).0.0@ != key.0@,\n"
+               "invariant __fk0 <= self.0@.len(),\n"
+               "ensures __ff0 is None ==> forall|j: int| 0 <= j < self.0@.len() ==> (#[trigger] self.0@[j]).0.0@ != key.0@,\n"
+               "  __ff0 matches Some(id) ==> (__fk0 < self.0@.len() && self.0@[__fk0 as int].0.0@ == key.0@ && self.0@[__fk0 as int].1 == id),\n"
+               "decreases self.0@.len() - __fk0,") if "__fk0" in header else (
+               "invariant_except_break __rf0 is None, forall|j: int| __rk0 <= j < self.0@.len() ==> (#[trigger] self.0@[j]).0.0@ != key.0@,\n"
+               "invariant __rk0 <= self.0@.len(), forall|j: int| __rk0 < j < self.0@.len() ==> (#[trigger] self.0@[j]).0.0@ != key.0@,\n"
+               "ensures __rf0 is None ==> forall|j: int| 0 <= j < self.0@.len() ==> (#[trigger] self.0@[j]).0.0@ != key.0@,\n"
+               "  __rf0 matches Some(id) ==> (__rk0 < self.0@.len() && self.0@[__rk0 as int].0.0@ == key.0@ && self.0@[__rk0 as int].1 == id),\n"
+               "decreases __rk0,")),
         arm("resolve_block", "ast::Expr::EBlock { exprs, astptr } => {", "exprs: &Vec<ast::Expr>, astptr: &ast::MySyntaxNodePtr",
             SAME, seq_loop("leaks"), obligation="a block is a scope: the environment after it is the environment before it"),
         arm("resolve_match", "ast::Expr::EMatch { expr, arms, astptr } => {", "expr: &Box<ast::Expr>, arms: &Vec<ast::Arm>, astptr: &ast::MySyntaxNodePtr",
